@@ -11,6 +11,7 @@ V_MOVE_ASSIGN = '_ZN4bloc5ValueaSEOS0_'
 V_CLEAR       = '_ZN4bloc5Value6_clearEv'
 V_MOVE_CTOR   = '_ZN4bloc5ValueC1EOS0_'
 V_SWAP_RV     = '_ZN4bloc5Value4swapEOS0_'
+V_CTOR_IMAG   = '_ZN4bloc5ValueC1EPNS_9ImaginaryE'
 CTX_ALLOCATE  = '_ZN4bloc7Context8allocateEONS_5ValueE'
 RTE_CTOR      = '_ZN4bloc12RuntimeErrorC2ENS_6EXC_RTE'
 RTE_CTOR_S    = '_ZN4bloc12RuntimeErrorC2ENS_6EXC_RTEPKc'
@@ -30,6 +31,18 @@ def all_jobs():
     J = []
     for n, c in (('op_bior', 'OpBIORExpression'), ('op_band', 'OpBANDExpression'), ('op_bxor', 'OpBXORExpression'), ('op_bnot', 'OpBNOTExpression')):
         J.append(op(n, c, ['C01', 'C02', 'C04', 'C05']))
+    for n, c in (('op_and', 'OpANDExpression'), ('op_ior', 'OpIORExpression'), ('op_xor', 'OpXORExpression'),
+                 ('op_pop', 'OpPOPExpression'), ('op_pus', 'OpPUSExpression'), ('op_not', 'OpNOTExpression')):
+        J.append(op(n, c, ['C01', 'C02', 'C03', 'C05']))
+    for n, c in (('op_sub', 'OpSUBExpression'), ('op_mul', 'OpMULExpression'), ('op_div', 'OpDIVExpression'), ('op_mod', 'OpMODExpression'),
+                 ('op_neg', 'OpNEGExpression'), ('op_pos', 'OpPOSExpression')):
+        j = op(n, c, ['C01', 'C02', 'C03', 'C05'], weight=10, uf=(n != 'op_pos'))
+        j['replace'] = j['replace'] + [V_CTOR_IMAG]
+        j['cut'] = j['cut'] + [V_CTOR_IMAG]
+        J.append(j)
+    for n, c in (('op_eq', 'OpEQExpression'), ('op_ne', 'OpNEExpression'), ('op_lt', 'OpLTExpression'), ('op_le', 'OpLEExpression'),
+                 ('op_gt', 'OpGTExpression'), ('op_ge', 'OpGEExpression')):
+        J.append(op(n, c, ['C01', 'C02', 'C04', 'C05'], weight=5))
     return J
 
 def known_findings():
@@ -66,9 +79,11 @@ DROPPED = [
   'destructor pointer argument of __cxa_throw',
 ]
 ASSUMPTIONS = [
+  'clauses marked uf=true (exact results of 64-bit and double *, /, %) are discharged with the machine operation abstracted as an uninterpreted function shared by rendered code and spec: they show that the code applies the operation to exactly the operand values; that the C operator on uint64_t/int64_t/double is multiplication modulo 2^64 / truncating division / IEEE-754 is the C semantics, assumed',
   'Mode B: the assigns clause of the function under contract is not machine-checked; frame facts that matter are explicit ensures over ghost snapshots',
   'children of an expression node obey the interface contract VCALL_Expression_value (contracts/iface.h): valid tag/flags, only RuntimeError thrown, each evaluation returns a distinct object',
   'heap exhaustion and stack overflow do not occur',
+  'integer-to-integer conversions are modulo 2^N as GCC defines them (CBMC conversion-check results for them are ignored; float-to-integer conversions are checked)',
   'the structural induction over the expression tree that carries per-node contracts to whole programs is argued in DESIGN.md, not mechanised',
 ]
 PROP_ASSUMPTIONS = {}
